@@ -100,6 +100,7 @@ static std::string provenance(const MeshGL64& g, const Registry& reg, Oracle& st
           ld grad = (std::max({s0, s1, s2}) - std::min({s0, s1, s2})) / alt;
           ld allow = 1e-9L * std::max<ld>({1.0L, fabsl(s0), fabsl(s1), fabsl(s2)}) + grad * 10 * tol * 2;
           ld got = g.vertProperties[np * g.triVerts[3 * t + i] + 3 + j];
+          if (fabsl(got - want) > allow && getenv("C07_DEBUG")) fprintf(stderr, "DEBUG tri %zu corner %d P=(%.6Lf %.6Lf %.6Lf) bary=(%.4Lf %.4Lf %.4Lf) src corner values=(%.4Lf %.4Lf %.4Lf) got %.6Lf ref=%d srcTri verts %llu %llu %llu\n", t, i, P[i].x, P[i].y, P[i].z, b0, b1, b2, s0, s1, s2, got, ref, (unsigned long long)S.tris[ref][0], (unsigned long long)S.tris[ref][1], (unsigned long long)S.tris[ref][2]);
           if (fabsl(got - want) > allow) { char b[260]; snprintf(b, sizeof b, "tri %zu corner %d channel %d = %.17Lg but the source field (face %llu of original %u) interpolates to %.17Lg (allowed %.3Le)", t, i, j, got, (unsigned long long)g.faceID[t], g.runOriginalID[run], want, allow); return b; }
         }
       }
@@ -151,6 +152,7 @@ int main(int argc, char** argv) {
   const int T = argc > 1 ? atoi(argv[1]) : 120;
   Registry reg; GenOpts o; Oracle st; long nonEmpty = 0, multiRun = 0, withProps = 0, withMerge = 0, emptyRuns = 0, backRuns = 0;
   for (int t = 0; t < T; t++) {
+    o.seamRefine = getenv("C07_FOCUS") ? true : t % 8 == 5;   // every 8th program: partial property seams + Refine(2)
     Prog P = randomProgram(r, reg, o);
     const Manifold& m = P.result;
     auto impl = implOf(m);
@@ -159,11 +161,23 @@ int main(int argc, char** argv) {
     std::string tag = std::to_string(t) + " " + kind + " tris=" + std::to_string((uint64_t)g.NumTri()) + " runs=" + std::to_string(g.runOriginalID.size()) + " numProp=" + std::to_string((uint64_t)g.numProp) + " merges=" + std::to_string(g.mergeFromVert.size()) + " :: " + P.desc;
     std::string msg = m.Status() == Manifold::Error::NoError ? runClauses(g, *impl) : "";
     if (msg.empty() && m.Status() == Manifold::Error::NoError) msg = provenance(g, reg, st);
+    if (!msg.empty() && getenv("C07_DEBUG")) { for (size_t q = 0; q < P.trace.size(); q++) { Oracle st2; MeshGL64 gq = P.trace[q].GetMeshGL64(); std::string mq = P.trace[q].Status() == Manifold::Error::NoError ? provenance(gq, reg, st2) : "error"; fprintf(stderr, "TRACE case %d pool[%zu] tris=%zu : %s\n", t, q, (size_t)gq.NumTri(), mq.c_str());
+        if (getenv("C07_AT")) { double X, Y, Z; sscanf(getenv("C07_AT"), "%lf,%lf,%lf", &X, &Y, &Z); const size_t np = gq.numProp;
+          for (size_t tt = 0; tt < gq.NumTri(); tt++) for (int i = 0; i < 3; i++) { size_t v = gq.triVerts[3 * tt + i]; double dx = gq.vertProperties[np * v] - X, dy = gq.vertProperties[np * v + 1] - Y, dz = gq.vertProperties[np * v + 2] - Z;
+            if (dx * dx + dy * dy + dz * dz < 1e-10 && np > 3) { size_t run = 0; while (run + 1 < gq.runIndex.size() && gq.runIndex[run + 1] <= 3 * tt) run++; fprintf(stderr, "   AT pool[%zu] tri %zu corner %d propvert %zu ch0=%.4f face %llu orig %u\n", q, tt, i, v, gq.vertProperties[np * v + 3], (unsigned long long)gq.faceID[tt], gq.runOriginalID[run]); } } }
+      } }
+    if (!msg.empty() && getenv("C07_PAIRS")) {
+      for (size_t i = 0; i < P.trace.size(); i++) for (size_t j = 0; j < P.trace.size(); j++) { if (i == j) continue;
+        for (int clean = 1; clean >= 0; clean--) { ManifoldParams().cleanupTriangles = clean; Manifold rr = P.trace[i] - P.trace[j]; Oracle st2; MeshGL64 gq = rr.GetMeshGL64(); std::string mq = provenance(gq, reg, st2); ManifoldParams().cleanupTriangles = true;
+          if (!mq.empty() || clean == 0) fprintf(stderr, "PAIR case %d pool[%zu]-pool[%zu] cleanup=%d tris=%zu : %s\n", t, i, j, clean, (size_t)gq.NumTri(), mq.substr(0, 90).c_str()); if (mq.empty()) break; } } }
     // classification of a property-value failure by the history of the program (keys of known_findings.txt)
     const bool propMsg = msg.find("interpolates to") != std::string::npos || msg.find("lies outside source triangle") != std::string::npos;
     const bool zeroMsg = msg.find("has only") != std::string::npos && msg.find("channels") != std::string::npos;
     const bool geomMsg = zeroMsg || msg.find("lies in the plane of no face") != std::string::npos || msg.find("from the plane of face") != std::string::npos || msg.find("is oriented against") != std::string::npos || msg.find("is not planar") != std::string::npos;
     if (propMsg && P.desc.find("!n3") != std::string::npos) msg = "prop-after-refine3plus: " + msg;
+    else if (propMsg && P.desc.find("pseam") != std::string::npos && (P.desc.find(";add") != std::string::npos || P.desc.find(";sub") != std::string::npos || P.desc.find(";int") != std::string::npos ||
+                         P.desc.find(";split") != std::string::npos || P.desc.find(";batch") != std::string::npos || P.desc.find(";plane") != std::string::npos) &&
+             P.desc.find("(self)") == std::string::npos && P.desc.find("(coincident)") == std::string::npos) msg = "pseam-boolean: " + msg;
     else if ((propMsg || geomMsg) && (P.desc.find("(self)") != std::string::npos || P.desc.find("(coincident)") != std::string::npos)) msg = "coincident-boolean: " + msg;
     hz::emit(tag, exportRequest(*impl), exportAnswer(g, normalsRewritten(*impl)), msg.empty(), msg);
     if (g.NumTri() > 0) {
